@@ -102,7 +102,9 @@ func C08(c *core.Ctx) {
 		}
 		req, addr := core.Param(fn, 0), core.Param(fn, 1)
 		k := 0
-		for _, ci := range core.CallsMatching(fn, func(f *types.Func) bool { return f.Pkg() != nil && f.Pkg().Path() == core.PkgMessage && rspCtor.MatchString(f.Name()) }) {
+		for _, ci := range core.CallsMatching(fn, func(f *types.Func) bool {
+			return f.Pkg() != nil && f.Pkg().Path() == core.PkgMessage && rspCtor.MatchString(f.Name())
+		}) {
 			nCtor++
 			k++
 			key := fmt.Sprintf("%s#%d", h, k)
@@ -188,6 +190,8 @@ func C08(c *core.Ctx) {
 		})
 		c.Floor("R2", n, 7, "handler calls in the dispatcher")
 	}
+	// R6: what a response says about one IE of the request is computed from that IE alone
+	independentIterations(c, "R6", handlerFns(p))
 	// the bytes cached for replay to a retransmitted request are this response's own (not a buffer
 	// that a later response overwrites): the replay must answer the request it is keyed by
 	if a := getTxAnchors(c, "R2"); a.ok {
